@@ -389,7 +389,11 @@ func evalTG(c *Ctx, cs *TGCase, vr map[string]*gen.VRes, props map[string]bool) 
 			return out
 		}
 		if r.RunErr != "" && len(r.Lines) < len(cs.Inputs) {
-			add("C06", v.Name, nil, "variant %s: the driver process died: %s", v.Name, r.RunErr)
+			if strings.Contains(r.RunErr, "panic:") || strings.Contains(r.RunErr, "fatal error:") || strings.Contains(r.RunErr, "Error") {
+				add("C06", v.Name, nil, "variant %s: the parser brought the whole process down instead of reporting a grammar error: %s", v.Name, r.RunErr)
+			} else {
+				c.Inconclusive("driver process ended abnormally without a language-level diagnostic (killed?)")
+			}
 			return out
 		}
 	}
